@@ -14,7 +14,7 @@ TB_COMMON = [KERNEL, 'axioms: propext, Classical.choice, Quot.sound only (audite
 # theorem registry: property -> [(module, [theorem names])]
 THEOREMS = {
     'C11': [('ChessVerif.Props.C11', ['Chess.Props.C11_slider', 'Chess.Props.C11_leapers', 'Chess.Props.C11_lines', 'Chess.Props.C11_pawn'])],
-    'C01': [('ChessVerif.Props.C01', ['Chess.Props.C01_king_moves_exact', 'Chess.Props.C01_castling_exact', 'Chess.Props.C01_castling_emitted',
+    'C01': [('ChessVerif.Props.C01', ['Chess.Props.C01_no_duplicates', 'Chess.Props.C01_move_shape', 'Chess.Props.C01_king_moves_exact', 'Chess.Props.C01_castling_exact', 'Chess.Props.C01_castling_emitted',
                                      'Chess.Props.C01_forbidden_squares', 'Chess.Props.C01_forbidden_nocheck', 'Chess.Props.C01_in_check_test',
                                      'Chess.Props.C01_leaper_geometry_partial', 'Chess.Props.C01_slider_geometry_partial', 'Chess.Props.C01_castling_paths_partial',
                                      'Chess.Props.C01_king_moves_partial', 'Chess.Props.C01_pins_partial'])],
@@ -37,7 +37,7 @@ THEOREMS = {
     'C13': [('ChessVerif.Props.C13', ['Chess.Props.C13_geometry', 'Chess.Props.C13_normSq_mirror', 'Chess.Props.C13_combine_neg', 'Chess.Props.C13_phase_symm'])],
     'C14': [('ChessVerif.Props.C14', ['Chess.Props.C14_cache_transparent', 'Chess.Props.C14_bounded', 'Chess.Props.C14_constants', 'Chess.Props.C14_cap_partial'])],
     'C15': [('ChessVerif.Props.C15', ['Chess.Props.C15_capture_quiet_full', 'Chess.Props.C15_gives_check_full', 'Chess.Props.C15_gives_check_noncastle', 'Chess.Props.C15_gives_check', 'Chess.Props.C15_gives_check_ordinary', 'Chess.Props.C15_quiet', 'Chess.Props.C15_castling', 'Chess.Props.C15_capture_rules'])],
-    'C17': [('ChessVerif.Props.C17', ['Chess.Props.C17_roundtrip', 'Chess.Props.C17_matcher_piece', 'Chess.Props.C17_matcher_pawn', 'Chess.Props.C17_castling'])],
+    'C17': [('ChessVerif.Props.C17', ['Chess.Props.C17_roundtrip_wf', 'Chess.Props.C17_roundtrip', 'Chess.Props.C17_matcher_piece', 'Chess.Props.C17_matcher_pawn', 'Chess.Props.C17_castling'])],
     'C18': [('ChessVerif.Props.C18', ['Chess.Props.C18_tables', 'Chess.Props.C18_anchors', 'Chess.Props.C18_pieces', 'Chess.Props.C18_key_noep', 'Chess.Props.C18_key'])],
     'C16': [('ChessVerif.Props.C16', ['Chess.Props.C16_encoding', 'Chess.Props.C16_encoding_move', 'Chess.Props.C16_castle_code', 'Chess.Props.C16_moveinfo',
                                      'Chess.Props.C16_uci_text', 'Chess.Props.C16_uci_plain', 'Chess.Props.C16_uci_castle'])],
@@ -1584,6 +1584,10 @@ def check_C08(ctx):
     # "mates" that are none: a double pawn push gives a check whose only answer is the en-passant capture of the checking pawn
     ep_escape = ['8/8/6pp/7k/5P1p/7K/6P1/8 w - - 0 1', '8/3b2p1/5k2/7P/7K/r7/8/8 b - - 0 1', '8/8/8/3k4/3pP3/8/8/4K3 b - e3 0 1',
                  '6k1/5ppp/8/8/4Pp2/5K2/8/2r3r1 b - e3 0 1']
+    # … and checks whose only answer is a pawn's DOUBLE step onto the checking line (an interposition the generator derives from the single push)
+    dbl_escape = ['8/1p1N4/p7/k7/8/1K6/8/7R w - - 0 1', '3bkr2/1p2pp2/p7/8/8/8/5PPP/3Q2K1 w - - 0 1', 'r7/8/6k1/8/7K/1r6/6P1/8 b - - 0 1']
+    for fen in dbl_escape + [mirror_fen(f) for f in dbl_escape]:
+        texts.append(f'newgame\npos {fen}\n' + ''.join(f'go depth {d}\n' for d in (1, 2, 3)) + 'playbest\ngo depth 2\n')
     for fen in ep_escape + [mirror_fen(f) for f in ep_escape]:
         texts.append(f'newgame\npos {fen}\n' + ''.join(f'go depth {d}\n' for d in (1, 2, 3, 4)) + 'playbest\ngo depth 3\n')
     runs = go_run(ctx, texts)
